@@ -216,8 +216,9 @@ func genDv(r *hx.Rng, depth, maxDepth int) *dv {
 		if k == "b" {
 			bits &= 1
 		}
-		if k == "f" && bits&0x7f800000 == 0x7f800000 && bits&0x7fffff != 0 {
-			bits &^= 0x7fffff // no NaN payloads
+		if k == "f" && r.Chance(0.15) {
+			// NaN bit patterns, signalling ones included: a float is 4 bytes that come back as they were
+			bits = uint64([]uint32{0x7fa00001, 0xffa00000, 0x7f800001, 0x7fc12345, 0xffffffff, 0x7fc00000}[r.Intn(6)])
 		}
 		return &dv{kind: k, bits: bits}
 	case c < 8:
